@@ -83,3 +83,4 @@ LEVEL = {
             'c20_haversine_sym (own file) uses the stdlib Reals axioms, all theorems of Props_C20.v are closed under the global context.',
     'technique': 'Coq proof over translator-generated kernel parameters (symbolic reduction check by computation) + bit-exact differential run + tolerance test',
 }
+CFG['rule'] = CFG['rule'] + ' ' + 'Binary stores (CStoreBits): vectorstore.New for hamming / jaccard with no block, a none block, binary blocks with thresholds 0.5 / 1.5 / -0.5 and either metric, a learned binary block; two points on the half grid; DistanceFromPoint and DistanceFromFloat (a second distance function is requested before the first is used) against the bit-count definition of the index metric at 0.5.'
